@@ -73,7 +73,8 @@ class LiborSDEFunction(SDEFunction):
         m, d = sigma.shape
         super().__init__(m=m, d=d)
         self._sigma = sigma
-        self.tenors = tenors
+        # (the tenors may be given as a plain list: they are compared with, and subtracted from, the time)
+        self.tenors = np.asarray(tenors, dtype=float)
 
     def sigma(self, t: float):
         """The sigma coefficient corresponding to the Libor with tenor T is zero for t >= T (the Libor rate fixes at T)
@@ -102,7 +103,8 @@ class ForwardMarketSDEFunction(SDEFunction):
         m, d = sigma.shape
         super().__init__(m=m, d=d)
         self._sigma = sigma
-        self.tenors = tenors
+        # (the tenors may be given as a plain list: they are compared with, and subtracted from, the time)
+        self.tenors = np.asarray(tenors, dtype=float)
 
     def sigma(self, t: float):
         """The sigma coefficient corresponding to the OIS term rate for the period [Ti, Ti+1]. It is 0 for t >= Ti+1 and
@@ -113,10 +115,14 @@ class ForwardMarketSDEFunction(SDEFunction):
             return self._sigma
         else:
             res = self._sigma.copy()
+            # rate of the period [T_i, T_i+1]: g_i = 1 before T_i, (T_i+1 - t) / (T_i+1 - T_i) inside, 0 after T_i+1,
+            # applied to the i-th row of sigma
             g = np.minimum(
-                1, np.maximum(0, self.tenors - t) / (self.tenors[1:] - self.tenors[:-1])
+                1,
+                np.maximum(0, self.tenors[1:] - t)
+                / (self.tenors[1:] - self.tenors[:-1]),
             )
-            res = res * np.diag(g)
+            res = res * g[:, np.newaxis]
             return res
 
     def __call__(self, t: float, x: np.array) -> np.array:
